@@ -194,10 +194,14 @@ def correspond(run, corr):
     if h != MODEL_SRC_HASH:
         mult = 10
         corr.notes.append("source of the modelled functions differs from the one the model was written against (%s != %s): x10 cases" % (h, MODEL_SRC_HASH))
-    n = run.scale(2500, 40000) * mult
+    n = run.scale(8000, 60000) * mult
     reqs = fixed_lines(tt)
     reqs += [run_line(run.rng, tt) for _ in range(n)]
     reqs += [hist_line(run.rng, tt) for _ in range(n // 4)]
+    if run.thorough:
+        # long runs through the hyperframe wrap: 20000 ticks each, every indication of 196 periods
+        for start, period, ds in ((H - 10000, 102, [0]), (H - 19999, 51, [tt // 2, tt + 1, 0]), (H - 1, 1, [tt - 1, tt])):
+            reqs.append("clck.run 7 %d %d 1 0,1 %s" % (start, period, csv((ds * 20000)[:20000])))
     impl = harness(reqs)
     model = vf.run_driver(reqs)
     corr.compare(reqs, impl, model)
@@ -328,6 +332,7 @@ def oracle_line(req, ans):
     # history: every start() that is executed while no thread exists must behave like a fresh run
     cur_start = start
     thread = False
+    started = False
     for i, (op, res) in enumerate(zip(tok[6].split(";"), ans.split(" | "))):
         body, st = res.rsplit(" T", 1) if " T" in res else (res, "")
         if op.startswith("setstart:"):
@@ -338,6 +343,7 @@ def oracle_line(req, ans):
             if thread:
                 continue               # second start(): not the subject of the property
             thread = True
+            again, started = started, True
             if not (0 <= cur_start < H):
                 continue
             if body.startswith("EXC"):
@@ -346,14 +352,14 @@ def oracle_line(req, ans):
             f = check_session(parse_events(body), cur_start, period, links, handler, parse_csv(op[6:]))
             if f:
                 f["op"] = i
-                f["what"] = "restart: " + f["what"] if i else f["what"]
+                f["what"] = "restart: " + f["what"] if again else f["what"]
                 return f
     return None
 
 
 def oracle_requests(run, deep):
     tt = P
-    n = run.scale(1500, 20000) * (5 if deep else 1)
+    n = run.scale(6000, 30000) * (4 if deep else 1)
     reqs = ["clck.run 0 0 102 1 - 0,0,0", "clck.run 0 2715647 1 1 0 0,0,0"]
     reqs += fixed_lines(tt)
     reqs += [run_line(run.rng, tt, domain_only=True) for _ in range(n)]
